@@ -88,6 +88,10 @@ type Exec struct {
 	axiomsLoaded bool
 	shaArgs []T
 	commute *commuteCtx
+	effectsMode bool // inline every repository callee, loops cut at the invariant true: only the effects are collected
+	famMu     sync.Mutex
+	famReads  map[string]bool // key families read / written by the function under verification
+	famWrites map[string]bool
 	shaPCs [][]T
 }
 
@@ -278,6 +282,9 @@ func (x *Exec) execBlock(st *State, fr *Frame, b *ssa.BasicBlock, prev *ssa.Basi
 		// loop entry
 		ord := loopOrdinal(fr, b.Index)
 		ls := x.findLoopSpec(st, fr, ord)
+		if x.effectsMode {
+			ls = &LoopSpec{Ordinal: ord}
+		}
 		if ls == nil {
 			x.fail("loop %d of %s (block %d, %s) has no invariant", ord, fr.fn, b.Index, x.posStr(firstPos(b)))
 		}
